@@ -2,6 +2,9 @@ package netsim
 
 import (
 	"fmt"
+	"sort"
+
+	"github.com/kardiachain/go-kardia/consensus"
 
 	kproto "github.com/kardiachain/go-kardia/proto/kardiachain/types"
 	"github.com/kardiachain/go-kardia/types"
@@ -76,6 +79,19 @@ func (w *World) runDriver() (ok bool) {
 		w.driverLockSplit()
 	case "late-polka":
 		w.driverLatePolka()
+	case "solo3":
+		w.driverSolo(3)
+		w.ended = true
+	case "solo4":
+		w.driverSolo(4)
+		w.ended = true
+	case "solo5":
+		w.driverSolo(5)
+		w.ended = true
+	case "macro2":
+		w.driverMacro(2)
+	case "macro3":
+		w.driverMacro(3)
 	default:
 		panic("unknown driver " + w.Cfg.Driver)
 	}
@@ -209,5 +225,291 @@ func (w *World) driverLatePolka() {
 	rs := w.Nodes[x].RS()
 	if rs.LockedBlock == nil || rs.LockedRound != 2 {
 		panic("x did not lock in round 2")
+	}
+}
+
+// ---------------------------------------------------------------------------------------------
+// macro-round exploration: instead of single deliveries, each choice fixes the shape of a whole round
+// (who gets the proposal, what the Byzantine validator prevotes, who sees all prevotes, whether older
+// held-back votes are released first). All alternatives cost 0, so the explorer enumerates the full
+// product of round shapes for the first R rounds; the default schedule then runs to completion.
+// This reaches the multi-round lock / re-lock / stale-polka histories that single-deviation bounds do not.
+
+type roundShape struct {
+	release    bool // deliver every held-back vote of older rounds to x first
+	xGetsData  bool // x receives this round's proposal and parts
+	byzPrevote int  // 0 = nil, 1 = this round's proposal block, 2 = no Byzantine prevote
+	seeAll     int  // 0 = nobody sees all prevotes, 1 = only x, 2 = only the others, 3 = everybody
+}
+
+func (w *World) fireIf(i int, step uint8, round uint32) bool {
+	n := w.Nodes[i]
+	if n.Failed != nil {
+		return false
+	}
+	if to := n.PendingTimeout(); to != nil && to.Step == step && to.Round == round && to.Height == n.RS().Height {
+		w.Timeout(i)
+		return true
+	}
+	return false
+}
+
+func (w *World) driverMacro(rounds int) {
+	if len(w.Cfg.Byz) != 1 || len(w.Correct) != 3 {
+		panic("macro driver needs 3 correct + 1 byzantine")
+	}
+	b := w.Cfg.Byz[0]
+	const stepNewHeight, stepPropose, stepPrevoteWait, stepPrecommitWait = 1, 3, 5, 7
+	w.fireAll(stepNewHeight)
+	// x = the first correct node that is not the round-1 proposer
+	x := -1
+	for _, i := range w.Correct {
+		if w.Nodes[i].RS().Proposal == nil {
+			x = i
+			break
+		}
+	}
+	if x < 0 {
+		x = w.Correct[0]
+	}
+	h := w.Nodes[x].RS().Height
+	for r := 1; r <= rounds; r++ {
+		round := uint32(r)
+		if w.Done() || w.Nodes[x].RS().Height != h {
+			return
+		}
+		for _, i := range w.Correct {
+			if w.Nodes[i].RS().Round != round || w.Nodes[i].Failed != nil {
+				return // the network left the lock-step shape: the default schedule takes over
+			}
+		}
+		w.X.Key("macro|" + w.StateKey(r))
+		costs := make([]int, 2*2*3*4)
+		ch := w.X.Choose(costs, fmt.Sprintf("macro-round-%d", r))
+		sh := roundShape{release: ch%2 == 1, xGetsData: (ch/2)%2 == 0, byzPrevote: (ch / 4) % 3, seeAll: (ch / 12) % 4}
+		w.Deviations = append(w.Deviations, fmt.Sprintf("round%d:%+v", r, sh))
+		if sh.release {
+			w.deliverWhere(x, func(m *Msg) bool { return m.Kind == "vote" && m.Vote.Round < round })
+		}
+		// data
+		var prop *Msg
+		for _, i := range w.Correct {
+			if i == x && !sh.xGetsData {
+				continue
+			}
+			w.deliverWhere(i, func(m *Msg) bool {
+				if isData(m) && m.Round == round {
+					if m.Kind == "proposal" {
+						prop = m
+					}
+					return true
+				}
+				return false
+			})
+		}
+		if prop == nil {
+			for _, i := range w.Correct {
+				if p := w.Nodes[i].RS().Proposal; p != nil && p.Round == round {
+					prop = w.wrap(consensus.VerifProposalMsg(p), -1)
+				}
+			}
+		}
+		for _, i := range w.Correct {
+			w.fireIf(i, stepPropose, round) // whoever still waits for a proposal times out and prevotes
+		}
+		// Byzantine prevote
+		byzPV := func(i int) {
+			if sh.byzPrevote == 2 {
+				return
+			}
+			id := types.BlockID{}
+			if sh.byzPrevote == 1 && prop != nil {
+				id = prop.Prop.POLBlockID
+			}
+			vi, _ := w.Nodes[i].RS().Validators.GetByAddress(w.Addrs[b])
+			w.Deliver(i, w.byzVote(b, uint32(vi), kproto.PrevoteType, h, round, id, "macro"))
+		}
+		sees := func(i int) bool {
+			switch sh.seeAll {
+			case 1:
+				return i == x
+			case 2:
+				return i != x
+			case 3:
+				return true
+			}
+			return false
+		}
+		for _, i := range w.Correct {
+			if sees(i) {
+				w.deliverWhere(i, isVote(kproto.PrevoteType, round))
+				byzPV(i)
+			} else {
+				for _, m := range w.deliverables(i) {
+					if isVote(kproto.PrevoteType, round)(m) {
+						w.Deliver(i, m)
+						break
+					}
+				}
+				byzPV(i)
+				if sh.byzPrevote == 2 { // without the Byzantine vote a second correct prevote is needed for +2/3 any
+					for _, m := range w.deliverables(i) {
+						if isVote(kproto.PrevoteType, round)(m) {
+							w.Deliver(i, m)
+							break
+						}
+					}
+				}
+			}
+			w.fireIf(i, stepPrevoteWait, round)
+		}
+		// precommits: everybody sees everybody's, plus a Byzantine nil precommit
+		for _, i := range w.Correct {
+			if w.Nodes[i].RS().Height != h {
+				continue
+			}
+			w.deliverWhere(i, isVote(kproto.PrecommitType, round))
+			if w.Nodes[i].RS().Height == h && w.Nodes[i].Failed == nil {
+				vi, _ := w.Nodes[i].RS().Validators.GetByAddress(w.Addrs[b])
+				w.Deliver(i, w.byzVote(b, uint32(vi), kproto.PrecommitType, h, round, types.BlockID{}, "macro"))
+			}
+		}
+		for _, i := range w.Correct {
+			if w.Nodes[i].RS().Height == h {
+				w.fireIf(i, stepPrecommitWait, round)
+			}
+		}
+	}
+}
+
+// ---------------------------------------------------------------------------------------------
+// solo: ONE correct validator x; the other three validators are played by the explorer (C03's "inputs fed
+// to a single correct validator"). Each choice fixes the shape of a whole round; all alternatives cost 0,
+// so the full product of shapes over the first R rounds is enumerated (with state-key pruning at round
+// boundaries). The per-node rules of C03 must hold whatever the others do.
+//
+// Round shape: proposal {none | fresh block | (x is the proposer: its own)} x data {delivered | withheld}
+//   x prevotes from the three others {mixed, no polka | polka for this round's proposal | polka for x's
+//   locked block | polka for nil} x stale {none | the polka for the most recent earlier fresh proposal that x
+//   is not locked on, delivered late (votes of that older round)}; precommits from the others are nil, so
+//   the round ends by timeout.
+
+func (w *World) driverSolo(rounds int) {
+	if len(w.Correct) != 1 {
+		panic("solo driver needs exactly one correct validator")
+	}
+	x := w.Correct[0]
+	n := w.Nodes[x]
+	const stepNewHeight, stepPropose, stepPrevoteWait, stepPrecommitWait = 1, 3, 5, 7
+	w.fireAll(stepNewHeight)
+	h := n.RS().Height
+	var others []int
+	for b := range w.IsByz {
+		others = append(others, b)
+	}
+	sort.Ints(others)
+	type fresh struct {
+		id    types.BlockID
+		round uint32
+	}
+	var pool []fresh
+	idx := func(b int) uint32 {
+		vi, _ := n.RS().Validators.GetByAddress(w.Addrs[b])
+		return uint32(vi)
+	}
+	polka := func(round uint32, id types.BlockID) {
+		for _, b := range others {
+			if n.Failed != nil || n.RS().Height != h {
+				return
+			}
+			w.Deliver(x, w.byzVote(b, idx(b), kproto.PrevoteType, h, round, id, "solo"))
+		}
+	}
+	for r := 1; r <= rounds; r++ {
+		round := uint32(r)
+		if n.Failed != nil || n.RS().Height != h || n.RS().Round != round {
+			return
+		}
+		w.X.Key("solo|" + w.StateKey(r) + fmt.Sprint(pool))
+		rs := n.RS()
+		propAddr := rs.Validators.GetProposer().Address
+		proposer := w.valIndexOfAddr(propAddr)
+		nProp := 3 // none, fresh+data, fresh without data
+		if proposer == x {
+			nProp = 1
+		}
+		const nPrev, nStale = 4, 2
+		costs := make([]int, nProp*nPrev*nStale)
+		ch := w.X.Choose(costs, fmt.Sprintf("solo-round-%d", r))
+		sp, pv, st := ch%nProp, (ch/nProp)%nPrev, (ch/(nProp*nPrev))%nStale
+		w.Deviations = append(w.Deviations, fmt.Sprintf("r%d:prop%d/prev%d/stale%d", r, sp, pv, st))
+		// stale polka first (it arrives at the beginning of the round)
+		if st == 1 {
+			for k := len(pool) - 1; k >= 0; k-- {
+				f := pool[k]
+				if f.round < round && (rs.LockedBlock == nil || !rs.LockedBlock.HashesTo(f.id.Hash)) {
+					polka(f.round, f.id)
+					break
+				}
+			}
+		}
+		// proposal
+		var thisID *types.BlockID
+		if proposer == x {
+			if p := n.RS().Proposal; p != nil {
+				id := p.POLBlockID
+				thisID = &id
+				pool = append(pool, fresh{id, round})
+			}
+		} else if sp > 0 {
+			bi := w.byzBlock(proposer, x, fmt.Sprintf("F%d", r))
+			if bi != nil {
+				msgs := w.byzProposal(proposer, bi, h, round, 0, "solo-proposal")
+				if sp == 2 {
+					msgs = msgs[:1] // the proposal without its parts
+				}
+				for _, m := range msgs {
+					w.Deliver(x, m)
+				}
+				id := bi.ID
+				thisID = &id
+				pool = append(pool, fresh{id, round})
+			}
+		}
+		w.fireIf(x, stepPropose, round)
+		// prevotes of the others
+		switch pv {
+		case 0: // +2/3 any without a polka: two of the others' prevotes arrive, the third is delayed (a later
+			// "stale" shape may deliver it and complete the polka for this round's proposal after the fact)
+			t0, t1 := types.BlockID{}, unknownID
+			if thisID != nil {
+				t0, t1 = *thisID, *thisID
+			}
+			w.Deliver(x, w.byzVote(others[0], idx(others[0]), kproto.PrevoteType, h, round, t0, "solo"))
+			w.Deliver(x, w.byzVote(others[1], idx(others[1]), kproto.PrevoteType, h, round, t1, "solo"))
+		case 1:
+			if thisID != nil {
+				polka(round, *thisID)
+			} else {
+				polka(round, types.BlockID{})
+			}
+		case 2:
+			if lb := n.RS().LockedBlock; lb != nil {
+				polka(round, types.BlockID{Hash: lb.Hash(), PartsHeader: n.RS().LockedBlockParts.Header()})
+			} else {
+				polka(round, unknownID)
+			}
+		case 3:
+			polka(round, types.BlockID{})
+		}
+		w.fireIf(x, stepPrevoteWait, round)
+		// precommits of the others: nil
+		for _, b := range others {
+			if n.Failed != nil || n.RS().Height != h {
+				return
+			}
+			w.Deliver(x, w.byzVote(b, idx(b), kproto.PrecommitType, h, round, types.BlockID{}, "solo"))
+		}
+		w.fireIf(x, stepPrecommitWait, round)
 	}
 }
